@@ -383,7 +383,7 @@ func (decomposer *Decomposer) DecomposeAndSplit(levelQ, levelP, nbPi, BaseRNSDec
 	ringQ := decomposer.ringQ.AtLevel(levelQ)
 
 	var ringP *Ring
-	if decomposer.ringP != nil {
+	if decomposer.ringP != nil && levelP > -1 {
 		ringP = decomposer.ringP.AtLevel(levelP)
 	}
 
